@@ -14,7 +14,7 @@
    trace is replayed here event by event.  The chunk count of a file is the
    GENERATED expression (Gen/Geometry.v recvTotalChunks). *)
 From Coq Require Import ZArith List Bool Arith.
-From TF Require Import Lib.GoInt Gen.Geometry.
+From TF Require Import Lib.GoInt Gen.Geometry Gen.C15.
 Import ListNotations.
 Open Scope Z_scope.
 
@@ -270,6 +270,7 @@ Definition handle_begin (s : st) (fi : option nat) (size cs sid : Z) (pathok io_
     | None => set_result s Fail
     | Some mf =>
       if negb (m_size mf =? size) then set_result s Fail
+      else if (cs =? 0) || (c_maxChunkSize <? cs) then set_result s Fail   (* since e89eb9f *)
       else if negb (sid =? 0) && negb (sid =? m_key mf) then set_result s Fail
       else match find_active (m_key mf) (active s) with
       | Some _ => set_result s Fail
@@ -324,12 +325,7 @@ Definition handle_ctl (s : st) (c : ctl) (io_ok : bool) : st :=
           else add_ack s (AckResume key (if fs_sidecar f then fs_have f else []))
       | None =>
           if memZ key (done_keys s) then s
-          else {| manifest := manifest s; resume := resume s; prior := prior s; active := active s;
-                  done_keys := done_keys s; fins := fins s; completed := completed s; begun := begun s;
-                  ctlq := ctlq s; ctlerr := ctlerr s; ctl_reader_gone := ctl_reader_gone s;
-                  dataerrq := dataerrq s; doneq := doneq s; end_seen := end_seen s; cancelled := cancelled s;
-                  blocked := true; inq := inq s; gone := gone s; writes := writes s; acks := acks s;
-                  result := result s |}
+          else set_result s Fail      (* since d3e79d7; before, the main loop waited for the file for good *)
       end
   | COther => set_result s Fail
   end.
